@@ -740,6 +740,21 @@ def fragment(fn_text: str, path: str, kind: str, ordinal) -> str:
         if len(hits) != 1:
             raise ExtractError(f"{path}: anchor lost: statement starting with `{ordinal}` found {len(hits)} times")
         return src.text[toks[hits[0]].end:toks[body_close].start]
+    if kind == "closure":
+        # body (without the braces) of the ordinal-th zero-argument closure with a block body: `|| { ... }`
+        hits = []
+        for idx, k in enumerate(src.sig):
+            t = toks[k]
+            if t.kind == "punct" and t.text == "|":
+                n1 = src.next_sig(k)
+                if n1 is not None and toks[n1].text == "|" and toks[n1].start == t.end:
+                    n2 = src.next_sig(n1)
+                    if n2 is not None and toks[n2].text == "{":
+                        hits.append(n2)
+        if not isinstance(ordinal, int) or ordinal < 1 or ordinal > len(hits):
+            raise ExtractError(f"{path}: anchor lost: closure#{ordinal} not found ({len(hits)} zero-argument block closures present)")
+        o = hits[ordinal - 1]
+        return src.text[toks[o].end:toks[src.match[o]].start]
     if kind == "let":
         hits = []
         for k in src.sig:
